@@ -506,3 +506,20 @@ func sliceLog(log []*Term, neg *Term) []*Term {
 	}
 	return out
 }
+
+// SolveCanaries: a canary only has to be "not unsat"; z3-new alone decides.
+func (s *Solver) SolveCanaries(obs []*Obligation, jobs int) {
+	var wg sync.WaitGroup
+	sem := make(chan struct{}, jobs)
+	for i, ob := range obs {
+		wg.Add(1)
+		go func(i int, ob *Obligation) {
+			defer wg.Done()
+			sem <- struct{}{}
+			defer func() { <-sem }()
+			r, raw, ms := runSolver(solvers[0], s.tmpdir, fmt.Sprintf("canary%d", i), s.Script(ob), 5)
+			ob.Result, ob.Raw, ob.Ms, ob.Backend = r, raw, ms, solvers[0].name
+		}(i, ob)
+	}
+	wg.Wait()
+}
